@@ -1,17 +1,21 @@
 (* wire encoding of C08 cases; exported functions are [x_*] : val -> val
    case  = ( cfg frames k t0 mode )      mode: 0 muxer straight into the writer (k = 0), 1 join at media tag k
-   cfg   = ( hevc sps pps vps hvcc width height fr vdr aac asc srate ssize chan adr date )
+   cfg   = ( hevc sps pps vps _ width height fr vdr aac asc srate ssize chan adr date derive )
+           the hvcC general bytes of an H.265 stream are computed from vps/sps by the model; derive = 1:
+           width/height/frame rate come from the SPS (hevc/h264.MetadataIsReady) instead of the case
    frame = ( kind dts_ns pts_ns payload ) *)
 From Coq Require Import ZArith List Bool.
-From V Require Import Val Bytes C08Amf0 C08Flv.
+From V Require Import Val Bytes C15BitFmt C15Ebsp C15H264 C15Hevc C08Amf0 C08Flv C08Hevc.
 Import ListNotations.
 Open Scope Z_scope.
 
-Definition dec_cfg (v : val) : cfg :=
+Definition dec_cfg_raw (v : val) : cfg :=
   mkCfg (as_bool (nthv 0 v)) (as_bytes (nthv 1 v)) (as_bytes (nthv 2 v)) (as_bytes (nthv 3 v))
         (as_bytes (nthv 4 v)) (as_int (nthv 5 v)) (as_int (nthv 6 v)) (as_int (nthv 7 v)) (as_int (nthv 8 v))
         (as_bool (nthv 9 v)) (as_bytes (nthv 10 v)) (as_int (nthv 11 v)) (as_int (nthv 12 v))
         (as_int (nthv 13 v)) (as_int (nthv 14 v)) (as_bytes (nthv 15 v)).
+
+Definition dec_cfg (v : val) : cfg := cfg_derived (dec_cfg_raw v) (as_bool (nthv 16 v)).
 
 Definition dec_frame (v : val) : frame :=
   mkFrame (as_int (nthv 0 v)) (as_int (nthv 1 v)) (as_int (nthv 2 v)) (as_bytes (nthv 3 v)).
@@ -60,3 +64,24 @@ Definition x_C08_amf_ok (v : val) : val :=
          | Some (name, props) => bytes_eqb name (as_bytes (nthv 0 c)) && list_eqb amf_prop_eqb want props
          | None => false
          end).
+
+(* H.265 parameter sets from field values: case = ( vps_record sps_record ), record = list of (key value)
+   -> ( vps_nal sps_nal ok ), ok = the records are well-ranged (emit succeeds, NAL shapes, hvcc_ranges,
+   h265_ranges); () when a record cannot be emitted *)
+Definition dec_rec (v : val) : env :=
+  fold_left (fun a kv => set a (as_int (nthv 0 kv)) (as_int (nthv 1 kv))) (as_list v) env0.
+Definition x_C08_hevc_emit (c : val) : val :=
+  match emit std_h265_vps (dec_rec (nthv 0 c)) env0, emit std_h265_sps (dec_rec (nthv 1 c)) env0 with
+  | Some (bv, av), Some (bs, a) =>
+      let nv := nal_of_bits bv in let ns := nal_of_bits bs in
+      VL [VB nv; VB ns;
+          vbool (nal_shape_ok nv && nal_shape_ok ns && hvcc_ranges av a && h265_ranges a &&
+                 (zlen nv <? 65536) && (zlen ns <? 65536))]
+  | _, _ => VL []
+  end.
+(* the record against the field values: case = ( vps_record sps_record vps_nal sps_nal pps );
+   observed = bytes 1..21 of HEVCDecoderConfigurationRecord.Marshal *)
+Definition x_C08_hvcc_run (c : val) : val := VB (hvcc_of_nals (as_bytes (nthv 2 c)) (as_bytes (nthv 3 c))).
+Definition x_C08_hvcc_ok (v : val) : val :=
+  let c := nthv 0 v in
+  vbool (hvcc_ok (dec_rec (nthv 0 c)) (dec_rec (nthv 1 c)) (as_bytes (nthv 1 v))).
